@@ -25,6 +25,10 @@ META = dict(
          "Reuse histories drive ONE object through random set-field / clear-field / pack / decode-into-fresh / "
          "from_stat steps with a reference model of the fields present now; every pack's flags word, bytes and "
          "decode are compared (no stale flag bit after a field was removed, none missing after one was added). "
+         "Formatting calls (str, asbytes, repr, _debug_str, Message.add_string) are inserted before half of the "
+         "single-shot packs (bytes compared with an unformatted twin) and as a history step: they must not change "
+         "any field. Directory listings whose entries lack uid/gid (or other groups) are fetched through a real "
+         "SFTP session - the server formats each entry's longname and then packs it - and must arrive unchanged. "
          "The same contracts stay installed while attribute sets travel through a real SFTP SETSTAT/STAT "
          "exchange. Holds on the executions produced, not for all inputs.",
     note="Trusts struct and the SFTP v3 ATTRS layout (draft-ietf-secsh-filexfer-02 §5). uid/gid and atime/mtime "
@@ -41,6 +45,9 @@ F_SIZE, F_UIDGID, F_PERM, F_AMTIME, F_EXT = 1, 2, 4, 8, 0x80000000
 
 def shards(tier):
     return 4 if tier == "quick" else 16
+
+SKIP = [0]  # shard s leaves out the samples of its first SKIP strata, so that evidence shows every stratum
+
 
 
 # generous per-shard caps: expiry means INCONCLUSIVE, never a verdict (the box is shared and can be 10x slow)
@@ -380,14 +387,64 @@ def compare_decoded(ctx, spec, back, where):
     return ok
 
 
+# --------------------------------------------------------------------------
+# observers: formatting an attribute block must not change what is encoded
+# --------------------------------------------------------------------------
+OBSERVERS = {
+    "str": lambda a: str(a),
+    "asbytes": lambda a: a.asbytes(),
+    "repr": lambda a: repr(a),
+    "_debug_str": lambda a: a._debug_str(),
+    "Message.add_string": lambda a: Message().add_string(a),
+}
+
+
+def observe(ctx, rng, obj, where, wit):
+    """Apply 1-3 formatting calls; judge that the object's fields are what they were. Returns the names used
+    (None when a field changed: the caller stops). An exception *from formatting* is counted, not judged
+    (what __str__ accepts is not this property)."""
+    used = []
+    for name in rng.sample(sorted(OBSERVERS), rng.randint(1, 3)):
+        before = (obj_fields(obj), obj.st_uid, obj.st_gid, obj.st_atime, obj.st_mtime)
+        try:
+            OBSERVERS[name](obj)
+        except gacontract.Breach:
+            raise
+        except Exception:
+            ctx.count("observer_calls_that_raised")
+            continue
+        used.append(name)
+        ctx.count("observer_calls")
+        after = (obj_fields(obj), obj.st_uid, obj.st_gid, obj.st_atime, obj.st_mtime)
+        if after != before:
+            changed = [g for g in ("size", "uidgid", "mode", "amtime", "ext") if before[0][g] != after[0][g]] or ["half of a pair"]
+            became = "an absent group became present" if any(
+                (before[0][g] is None or before[0][g] == []) and after[0][g] not in (None, []) for g in changed if g in before[0]) \
+                else "a field changed"
+            ctx.violation("formatting the object mutated it: %s (%s)" % (became, "/".join(changed)),
+                          "%s: fields before %r, after %r" % (where, before[0], after[0]), dict(wit, observer=name))
+            return None
+    return used
+
+
 def one_case(ctx, rng, spec):
     prefix = rbytes(rng, 12)
     trailer = rbytes(rng, 12)
     a = build(spec)
+    formatted = None
+    if rng.random() < 0.5:
+        # format the object between construction and encoding; a twin that is never formatted is the control
+        formatted = observe(ctx, rng, a, "before a single-shot pack", dict(spec=spec))
+        if formatted is None:
+            return
     m = Message()
     m.add_bytes(prefix)
     try:
         a._pack(m)
+        if formatted:
+            twin = Message()
+            twin.add_bytes(prefix)
+            build(spec)._pack(twin)
     except gacontract.Breach:
         REC.drain(ctx)
         return
@@ -395,6 +452,15 @@ def one_case(ctx, rng, spec):
         ctx.violation("exception from _pack: " + exc_signature(e), repr(e)[:200], dict(spec=spec))
         return
     wire = m.asbytes()
+    if formatted:
+        ctx.count("packs_compared_with_and_without_formatting")
+        if twin.asbytes() != wire:
+            kind = "flags differ" if twin.asbytes()[len(prefix):len(prefix) + 4] != wire[len(prefix):len(prefix) + 4] else "fields differ"
+            ctx.violation("an object formatted before packing encodes differently from an unformatted twin (%s)" % kind,
+                          "after %s: %s, twin: %s" % ("+".join(formatted), wire[len(prefix):][:24].hex(),
+                                                     twin.asbytes()[len(prefix):][:24].hex()),
+                          dict(spec=spec, observers=formatted))
+            return
     want = prefix + ref_encode(spec["size"], spec["uidgid"], spec["mode"], spec["amtime"],
                                list(spec["ext"].items()))
     ctx.count("encodings_compared")
@@ -526,6 +592,7 @@ def history_case(ctx, rng, hi):
         REC.drain(ctx)
         return
     packs = 0
+    formatted_since_pack = False
     for step in range(rng.randint(3, 12)):
         r = rng.random()
         wit = dict(history=ops)
@@ -545,6 +612,12 @@ def history_case(ctx, rng, hi):
             ops.append(["clear" if gone else "drop-one-extended", g])
             if gone:
                 removed = True
+        elif r < 0.70 and r >= 0.64:
+            used = observe(ctx, rng, obj, "history", wit)
+            if used is None:
+                return
+            ops.append(["format"] + used)
+            formatted_since_pack = True
         elif r < 0.64:
             try:
                 obj, model = fresh(rng.choice(["from_stat", "decoded"]))
@@ -568,6 +641,9 @@ def history_case(ctx, rng, hi):
                 return
             packs += 1
             ctx.count("history_packs")
+            if formatted_since_pack:
+                ctx.count("history_packs_after_a_format_step")
+                formatted_since_pack = False
             if removed:
                 ctx.count("packs_after_a_field_was_removed")
             if added:
@@ -603,7 +679,7 @@ def history_case(ctx, rng, hi):
                 return
             removed = added = False
     REC.drain(ctx)
-    ctx.case(("history", repr(ops)), sample=dict(kind="reuse history", ops=ops) if hi < 1 else None,
+    ctx.case(("history", repr(ops)), sample=dict(kind="reuse history", ops=ops) if hi < 1 and SKIP[0] <= 1 else None,
              nontrivial=packs > 0)
     ctx.count("histories_run")
 
@@ -624,6 +700,10 @@ def session_sample(ctx, rng, n):
         def stat(self, path):
             return store.get(path, SFTP_NO_SUCH_FILE)
 
+        def list_folder(self, path):
+            return listing.get(path, SFTP_NO_SUCH_FILE)
+
+    listing = {}
     root = tempfile.mkdtemp(prefix="vf-c33-")
     bench = None
     QUIET[0] = True
@@ -633,7 +713,7 @@ def session_sample(ctx, rng, n):
             spec = make_spec(rng)
             path = "/p%d" % i
             ctx.case(("session", sorted((k, repr(v)) for k, v in spec.items())),
-                     sample=dict(kind="via SFTP session", spec=spec) if i == 0 else None)
+                     sample=dict(kind="via SFTP session", spec=spec) if i == 0 and SKIP[0] <= 2 else None)
             try:
                 bench.client._request(CMD_SETSTAT, path, build(spec))
             except gacontract.Breach:
@@ -655,6 +735,42 @@ def session_sample(ctx, rng, n):
             srv_spec = dict(obj_fields(srv), ext=dict(srv.attr))
             compare_decoded(ctx, srv_spec, back, "session: client-side decode of the STAT reply")
             REC.drain(ctx)
+        # directory listings: the server formats every entry (longname = str(attr)) and THEN packs it
+        for d in range(max(3, n // 10)):
+            specs = []
+            for j in range(rng.randint(1, 8)):
+                spec = make_spec(rng)
+                spec["ext"] = {}
+                if j == 0:
+                    spec["uidgid"] = None  # at least one entry without uid/gid per listing
+                try:
+                    str(build(spec))
+                except Exception:
+                    continue  # what __str__ accepts is not this property; do not let it kill the server thread
+                specs.append(spec)
+            path = "/dir%d" % d
+            entries = []
+            for j, spec in enumerate(specs):
+                a = build(spec)
+                a.filename = "e%d" % j
+                entries.append(a)
+            listing[path] = entries
+            ctx.case(("listing", d, repr(specs)), sample=dict(kind="directory listing via SFTP session", entries=specs) if d == 0 else None)
+            got = bench.client.listdir_attr(path)
+            byname = {a.filename: a for a in got}
+            if len(got) != len(specs):
+                ctx.inconclusive("listing returned %d entries for %d sent" % (len(got), len(specs)))
+                continue
+            for j, spec in enumerate(specs):
+                back = byname.get("e%d" % j)
+                if back is None:
+                    ctx.inconclusive("listing lost entry e%d" % j)
+                    continue
+                ctx.count("session_listing_entries_compared")
+                if spec["uidgid"] is None:
+                    ctx.count("session_listing_entries_without_uidgid")
+                compare_decoded(ctx, spec, back, "session: directory listing entry (server formats the longname, then packs)")
+            REC.drain(ctx)
     except Exception as e:
         ctx.inconclusive("session sample failed: %r" % (e,))
     finally:
@@ -666,6 +782,7 @@ def session_sample(ctx, rng, n):
 
 
 def run(ctx):
+    SKIP[0] = ctx.shard % 4
     rng = ctx.rng
     install_contracts()
     ctx.note("contract_backend", gacontract.BACKEND)
@@ -678,13 +795,13 @@ def run(ctx):
                 continue
             spec = make_spec(rng, bits)
             ctx.case(("enum", bits, sorted((k, repr(v)) for k, v in spec.items())),
-                     sample=dict(kind="presence-combination", bits=bits, spec=spec) if rep == 0 and bits == 21 else None)
+                     sample=dict(kind="presence-combination", bits=bits, spec=spec) if rep == 0 and bits == 21 and SKIP[0] <= 0 else None)
             ctx.count("presence_combinations_cases")
             one_case(ctx, rng, spec)
     for i in range(ctx.pick(12000, 60000)):
         spec = make_spec(rng)
         ctx.case(("rand", sorted((k, repr(v)) for k, v in spec.items())),
-                 sample=dict(kind="random", spec=spec) if i < 1 else None)
+                 sample=dict(kind="random", spec=spec) if i < 1 and SKIP[0] <= 0 else None)
         if spec["ext"]:
             ctx.count("cases_with_extended")
         one_case(ctx, rng, spec)
@@ -698,6 +815,11 @@ def run(ctx):
             if ctx.violations:
                 break
         session_sample(ctx, rng, ctx.pick(150, 1500))
+    ctx.require("observer_calls", 10000)
+    ctx.require("packs_compared_with_and_without_formatting", 5000)
+    ctx.require("history_packs_after_a_format_step", 1500)
+    ctx.require("session_listing_entries_compared", 100)
+    ctx.require("session_listing_entries_without_uidgid", 40)
     ctx.require("history_packs", 10000)
     ctx.require("packs_after_a_field_was_removed", 3000)
     ctx.require("packs_after_a_field_was_added", 3000)
